@@ -1261,6 +1261,95 @@ class Normaliser:
         for x in node.body:
             ast.fix_missing_locations(x)
 
+    # ---- dispatch through a local table of constants --------------------------------------------------------------------------
+    def unroll_table_dispatch(self, node):
+        """D = {'k1': v1, 'k2': v2}            (a local display with constant keys, used only in the test and as D[X])
+        if [type(X) is str and] X in D: BODY(D[X]) else: ELSE
+          ->  if X == 'k1': BODY(v1) elif X == 'k2': BODY(v2) else: ELSE
+        `a, b = D[X]` with tuple entries binds a, b to the components, which are then substituted through BODY when they are not
+        rebound there.  X itself is replaced by the attribute it was read from (`X = self.attr` just before)."""
+        def names(e):
+            return {x.id for x in ast.walk(e) if isinstance(x, ast.Name)}
+
+        def process(body):
+            i = 0
+            while i < len(body):
+                st = body[i]
+                for f in ('body', 'orelse', 'finalbody'):
+                    sub = getattr(st, f, None)
+                    if isinstance(sub, list) and sub and isinstance(sub[0], ast.stmt):
+                        process(sub)
+                i += 1
+                if not isinstance(st, ast.If):
+                    continue
+                t = st.test
+                conj = t.values if isinstance(t, ast.BoolOp) and isinstance(t.op, ast.And) else [t]
+                member = [c for c in conj if isinstance(c, ast.Compare) and len(c.ops) == 1 and isinstance(c.ops[0], ast.In)
+                          and isinstance(c.left, ast.Name) and isinstance(c.comparators[0], ast.Name)]
+                if len(member) != 1:
+                    continue
+                X, D = member[0].left.id, member[0].comparators[0].id
+                idx = body.index(st)
+                ddefs = [s_ for s_ in body[:idx] if isinstance(s_, ast.Assign) and len(s_.targets) == 1 and isinstance(s_.targets[0], ast.Name)
+                         and s_.targets[0].id == D]
+                if len(ddefs) != 1 or not isinstance(ddefs[0].value, ast.Dict) or not ddefs[0].value.keys:
+                    continue
+                disp = ddefs[0].value
+                if not all(isinstance(k, ast.Constant) and isinstance(k.value, str) for k in disp.keys):
+                    continue
+                rest = [c for c in conj if c is not member[0]]
+                if any(U(c).replace(' ', '') not in ('type(%s)isstr' % X, 'isinstance(%s,str)' % X) for c in rest):
+                    continue
+                # D is used nowhere else than in the test and as D[X] inside the body
+                uses = [n for s_ in body for n in ast.walk(s_) if isinstance(n, ast.Name) and n.id == D]
+                reads = [n for b_ in st.body for n in ast.walk(b_) if isinstance(n, ast.Subscript) and isinstance(n.value, ast.Name) and n.value.id == D
+                         and U(n.slice) == X]
+                if len(uses) != 2 + len(reads):
+                    continue
+                # X read from an attribute just before?
+                xdefs = [s_ for s_ in body[:idx] if isinstance(s_, ast.Assign) and len(s_.targets) == 1 and isinstance(s_.targets[0], ast.Name)
+                         and s_.targets[0].id == X]
+                xsrc = xdefs[-1].value if xdefs and isinstance(xdefs[-1].value, ast.Attribute) and U(xdefs[-1].value.value) == 'self' else None
+                subject = clone(xsrc) if xsrc is not None else ast.Name(id=X, ctx=ast.Load())
+                chain = None
+                for k, v in reversed(list(zip(disp.keys, disp.values))):
+                    br = [clone(b_) for b_ in st.body]
+
+                    class R(ast.NodeTransformer):
+                        def visit_Subscript(self, n):
+                            n = self.generic_visit(n)
+                            if isinstance(n.value, ast.Name) and n.value.id == D and U(n.slice) == X and isinstance(n.ctx, ast.Load):
+                                return ast.copy_location(clone(v), n)
+                            return n
+                    br = [R().visit(b_) for b_ in br]
+                    # a, b = (c1, c2): substitute the components
+                    out = []
+                    binds = {}
+                    for b_ in br:
+                        if isinstance(b_, ast.Assign) and len(b_.targets) == 1 and isinstance(b_.targets[0], ast.Tuple) and isinstance(b_.value, ast.Tuple) \
+                                and len(b_.targets[0].elts) == len(b_.value.elts) and all(isinstance(e_, ast.Name) for e_ in b_.targets[0].elts) \
+                                and all(isinstance(e_, (ast.Name, ast.Constant)) for e_ in b_.value.elts) and not out:
+                            for a_, c_ in zip(b_.targets[0].elts, b_.value.elts):
+                                binds[a_.id] = c_
+                            continue
+                        out.append(b_)
+                    rebound = {n.id for b_ in out for n in ast.walk(b_) if isinstance(n, ast.Name) and isinstance(n.ctx, ast.Store)}
+                    if binds and not (set(binds) & rebound):
+                        class S2(ast.NodeTransformer):
+                            def visit_Name(self, n):
+                                return ast.copy_location(clone(binds[n.id]), n) if n.id in binds and isinstance(n.ctx, ast.Load) else n
+                        out = [S2().visit(b_) for b_ in out]
+                    elif binds:
+                        out = [ast.copy_location(ast.Assign(targets=[ast.Name(id=a_, ctx=ast.Store())], value=c_), st) for a_, c_ in binds.items()] + out
+                    test = ast.Compare(left=clone(subject), ops=[ast.Eq()], comparators=[clone(k)])
+                    new_if = ast.copy_location(ast.If(test=test, body=out, orelse=([chain] if chain is not None else [clone(x_) for x_ in st.orelse])), st)
+                    chain = new_if
+                body[idx] = chain
+                body.remove(ddefs[0])
+                for x_ in body:
+                    ast.fix_missing_locations(x_)
+        process(node.body)
+
     def run(self):
         node = clone(self.fi.node)
         self.memo_issues = []
@@ -1269,6 +1358,7 @@ class Normaliser:
         self.dememoise(node)          # memo tables that came in with inlined helpers
         self.fuse_item_tables(node)
         self.simplify_options(node)
+        self.unroll_table_dispatch(node)
         self.split_paths(node)
         ast.fix_missing_locations(node)
         for n in ast.walk(node):
